@@ -34,7 +34,7 @@ ASSUMPTIONS = ['for x += v / c[k] += v on lists the invariant covers the newly a
                'alias other objects legitimately, push and list literals pass by reference)',
                'the monitor reads VMState.names.scopes when present and falls back to the host mapping otherwise']
 
-VARS = ['x', 'y', 'z', 'h']
+VARS = ['x', 'y', 'z', 'h', 'w']
 AST_BODIES = ['t = a\npush(t, 99)\nt', 't = a\nt[0] = 5\na', 't = [a]\nt[0].push(1)\nlen(a)', 'q = a\nq.push(7)\nq', 'w = {"k": a}\nw["k"].push(3)\n0',
               't = a\na.push(4)\nt', 't = a\nu2 = t\nu2.push(6)\n[a, t, u2]', 'c = [0]\nc[0] = a\nc[0].push(2)\nc']
 _parser = None
@@ -81,8 +81,10 @@ def host_env():
     shared = [D(5)]
     import threading
     unc = {'items': [D(1)], 'lock': threading.Lock(), 'k': [D(4)]}       # deepcopy of this host object fails
-    names = {'h': hobj, 'x': [[D(0)]], 'y': {'k': [D(1)], 'a': shared}, 'z': [[D(2)], shared], 'u': unc}
-    return names, [hobj, shared, unc]
+    # a host object whose dicts have keys that are not strings (legal host data; programs address only string keys)
+    odd = [{1: [D(3)], D('2.5'): 'v', True: [D(1)], None: D(2), 'k': {7: [D(8)]}}, [{D(1): D(1)}]]
+    names = {'h': hobj, 'x': [[D(0)]], 'y': {'k': [D(1)], 'a': shared}, 'z': [[D(2)], shared], 'u': unc, 'w': odd}
+    return names, [hobj, shared, unc, odd]
 
 
 def run_program(case):
@@ -411,7 +413,7 @@ def cases(draw):
         return stmt()
 
     s1 = [stmt2() for _ in range(1 + n(8))]
-    s2 = [stmt2() for _ in range(n(3))] + ['[x, y, z, h]']
+    s2 = [stmt2() for _ in range(n(3))] + ['[x, y, z, h, w]']
     return {'src1': '\n'.join(s1), 'src2': '\n'.join(s2), 'ast': ast}
 
 
